@@ -104,4 +104,184 @@ example : zzSqrtV 64 4 ((2 ^ 128 - 1) * (2 ^ 128 - 1)) = (2 ^ 128 - 1, true)
     ∧ zzSqrtV 64 4 (2 ^ 256 - 1) = (2 ^ 128 - 1, false)
     ∧ zzSqrtV 64 3 0 = (0, true) ∧ zzSqrtV 16 1 1 = (1, true) := by decide +kernel
 
+/-! ## zzJacobi -/
+
+open scoped NumberTheorySymbols in
+/-- zzJacobi (header: b odd; any a, in particular a ≥ b and a shorter than b): the loop as
+    written returns the Jacobi symbol `(a / b)` of Mathlib (`jacobiSym`, defined through the
+    Legendre symbols of the prime factors of b — the definition quoted in zz.h). -/
+theorem zzJacobiV_spec (a b : Nat) (hb : b % 2 = 1) : zzJacobiV a b = J((a : ℤ) | b) :=
+  zzJacobiV_spec' a b hb
+
+example : zzJacobiV 1001 9907 = -1 ∧ zzJacobiV (2 ^ 127 + 12345) (2 ^ 89 - 1) = 1
+    ∧ zzJacobiV 21 (3 * (2 ^ 64 + 13)) = 0 ∧ zzJacobiV 5 1 = 1 ∧ zzJacobiV 0 1 = 1
+    ∧ zzJacobiV 0 9 = 0 ∧ zzJacobiV (2 ^ 200 + 1) 3 = -1 := by decide +kernel
+
+/-! ## Montgomery ring of zmCreateMont: zzRedMont, zmFromMont / zmToMont / zmMulMont -/
+
+/-- zzRedMont (header: mod odd, mod[n-1] != 0, a < mod * R, mont_param = wordNegInv(mod[0]) —
+    used only through the C ASSERT `(word)(mod[0] * mont_param + 1) == 0`): the Dussé–Kaliski
+    loop plus the masked final subtraction returns a value `< mod` with
+    `result * R ≡ a (mod mod)`, R = B^n — i.e. `a * R^{-1} mod mod`. -/
+theorem zzRedMontV_spec (w n md mp a : Nat) (hmp : (md % 2 ^ w * mp + 1) % 2 ^ w = 0)
+    (hmd : md < 2 ^ (w * n)) (ha : a < md * 2 ^ (w * n)) :
+    zzRedMontV w n md mp a < md ∧ zzRedMontV w n md mp a * 2 ^ (w * n) ≡ a [MOD md] :=
+  zzRedMontV_spec' w n md mp a hmp hmd ha
+
+/-- round trip of the Montgomery representation: `to (from a) = a` for a < mod, mod odd -/
+theorem zmMont_roundtrip (w n md mp a : Nat) (hodd : md % 2 = 1)
+    (hmp : (md % 2 ^ w * mp + 1) % 2 ^ w = 0) (hmd : md < 2 ^ (w * n)) (ha : a < md) :
+    zmToMontV w n md mp (zmFromMontV w n md a) = a := by
+  unfold zmToMontV zmFromMontV
+  have hlt : a * 2 ^ (w * n) % md < md := Nat.mod_lt _ (by omega)
+  obtain ⟨h1, h2⟩ := zzRedMontV_spec w n md mp _ hmp hmd
+    (Nat.lt_of_lt_of_le hlt (Nat.le_mul_of_pos_right _ (Nat.two_pow_pos _)))
+  exact eq_of_modEq_lt (cancel_R hodd (h2.trans (Nat.mod_modEq _ _))) h1 ha
+
+/-- multiplication in the Montgomery representation is multiplication in Z/(mod):
+    `to (mulMont (from a) (from b)) = a * b mod mod` -/
+theorem zmMont_mul (w n md mp a b : Nat) (hodd : md % 2 = 1)
+    (hmp : (md % 2 ^ w * mp + 1) % 2 ^ w = 0) (hmd : md < 2 ^ (w * n)) (_ha : a < md)
+    (_hb : b < md) :
+    zmToMontV w n md mp (zmMulMontV w n md mp (zmFromMontV w n md a) (zmFromMontV w n md b))
+      = a * b % md := by
+  unfold zmToMontV zmMulMontV zmFromMontV
+  have hm0 : 0 < md := by omega
+  have hx : a * 2 ^ (w * n) % md < md := Nat.mod_lt _ hm0
+  have hy : b * 2 ^ (w * n) % md < md := Nat.mod_lt _ hm0
+  obtain ⟨h1, h2⟩ := zzRedMontV_spec w n md mp
+    (a * 2 ^ (w * n) % md * (b * 2 ^ (w * n) % md)) hmp hmd
+    (Nat.mul_lt_mul'' hx (Nat.lt_trans hy hmd))
+  generalize zzRedMontV w n md mp (a * 2 ^ (w * n) % md * (b * 2 ^ (w * n) % md)) = z at *
+  obtain ⟨h3, h4⟩ := zzRedMontV_spec w n md mp z hmp hmd
+    (Nat.lt_of_lt_of_le h1 (Nat.le_mul_of_pos_right _ (Nat.two_pow_pos _)))
+  generalize zzRedMontV w n md mp z = u at *
+  apply eq_of_modEq_lt _ h3 (Nat.mod_lt _ hm0)
+  apply cancel_R (k := w * n) hodd
+  apply cancel_R (k := w * n) hodd
+  have e1 : u * 2 ^ (w * n) * 2 ^ (w * n) ≡ z * 2 ^ (w * n) [MOD md] := h4.mul_right _
+  have e2 : a * 2 ^ (w * n) % md * (b * 2 ^ (w * n) % md) ≡ a * 2 ^ (w * n) * (b * 2 ^ (w * n)) [MOD md] :=
+    (Nat.mod_modEq _ _).mul (Nat.mod_modEq _ _)
+  have e3 : a * b % md * 2 ^ (w * n) * 2 ^ (w * n) ≡ a * b * 2 ^ (w * n) * 2 ^ (w * n) [MOD md] :=
+    ((Nat.mod_modEq _ _).mul_right _).mul_right _
+  refine (e1.trans (h2.trans e2)).trans (Nat.ModEq.trans ?_ e3.symm)
+  rw [show a * 2 ^ (w * n) * (b * 2 ^ (w * n)) = a * b * 2 ^ (w * n) * 2 ^ (w * n) by ring]
+
+/-- the `unity` prepared by zmCreateMont represents 1 -/
+theorem zmMont_unity (w n md mp : Nat) (hodd : md % 2 = 1)
+    (hmp : (md % 2 ^ w * mp + 1) % 2 ^ w = 0) (hmd : md < 2 ^ (w * n)) :
+    zmToMontV w n md mp (zmUnityMontV w n md) = 1 % md := by
+  unfold zmToMontV zmUnityMontV
+  have hm0 : 0 < md := by omega
+  have hu : (2 ^ (w * n) - md) % 2 ^ (w * n) % md < md := Nat.mod_lt _ hm0
+  obtain ⟨h1, h2⟩ := zzRedMontV_spec w n md mp _ hmp hmd
+    (Nat.lt_of_lt_of_le hu (Nat.le_mul_of_pos_right _ (Nat.two_pow_pos _)))
+  apply eq_of_modEq_lt _ h1 (Nat.mod_lt _ hm0)
+  apply cancel_R (k := w * n) hodd
+  refine h2.trans ((Nat.mod_modEq _ _).trans ?_)
+  rw [Nat.mod_eq_of_lt (by omega)]
+  have e : 1 % md * 2 ^ (w * n) ≡ 1 * 2 ^ (w * n) [MOD md] := (Nat.mod_modEq _ _).mul_right _
+  refine Nat.ModEq.trans ?_ e.symm
+  rw [Nat.one_mul]
+  have : 2 ^ (w * n) - md + md ≡ 2 ^ (w * n) - md [MOD md] := by
+    simpa using (Nat.ModEq.refl (2 ^ (w * n) - md)).add (Nat.modEq_zero_iff_dvd.2 (dvd_refl md))
+  rw [Nat.sub_add_cancel (by omega)] at this
+  exact this.symm
+
+/-- u16/u32/u64NegInv (wordNegInv): for odd mod[0] the result satisfies the ASSERT of zzRedMont,
+    `(word)(mod[0] * mont_param + 1) == 0` — the hypothesis `hmp` of the theorems above. -/
+theorem wordNegInvV_spec (w m0 : Nat) (hw : w = 16 ∨ w = 32 ∨ w = 64) (hm0 : m0 < 2 ^ w)
+    (hodd : m0 % 2 = 1) : (m0 % 2 ^ w * wordNegInvV w m0 + 1) % 2 ^ w = 0 := by
+  rw [Nat.mod_eq_of_lt hm0]
+  exact wordNegInvV_spec' w m0 hw hodd
+
+example : wordNegInvV 32 3 = 0x55555555
+    ∧ (0xFFFFFFFFFFFFFF43 * wordNegInvV 64 0xFFFFFFFFFFFFFF43 + 1) % 2 ^ 64 = 0
+    ∧ (0xFF43 * wordNegInvV 16 0xFF43 + 1) % 2 ^ 16 = 0 := by decide +kernel
+
+example : let md := 2 ^ 127 - 1; let mp := wordNegInvV 64 (md % 2 ^ 64)
+    (md % 2 ^ 64 * mp + 1) % 2 ^ 64 = 0 ∧ md % 2 = 1 ∧ md < 2 ^ (64 * 2)
+    ∧ zmToMontV 64 2 md mp (zmMulMontV 64 2 md mp (zmFromMontV 64 2 md 12345678901234567890123)
+        (zmFromMontV 64 2 md (md - 2))) = 12345678901234567890123 * (md - 2) % md := by
+  decide +kernel
+
+/-! ## zmCreate: every branch meets the precondition of the reduction it selects
+
+zmCreate's own precondition `no > 0 && mod[no - 1] > 0` is literally the first precondition of
+zmCreatePlain / Crand / Barr / Mont, so it passes through unchanged (nothing to prove); the
+branch-specific preconditions are below.  `mod` = the octets (little-endian, `Wf 8`),
+O_PER_W = w / 8. -/
+
+/-- Montgomery branch ⇒ the modulus is odd (precondition of zmCreateMont / zzRedMont) -/
+theorem zmKind_mont_odd (w : Nat) (mod : List Nat) (h : zmKind w mod = .mont) :
+    val 8 mod % 2 = 1 := by
+  unfold zmKind at h
+  simp only [] at h
+  split_ifs at h with h1 h2 h3
+  cases mod with
+  | nil => simp at h3
+  | cons x xs =>
+    simp only [List.headD_cons] at h3
+    simp only [val_cons]
+    omega
+
+/-- Crandall branch ⇒ `no = n * O_PER_W` with `n ≥ 2` (in fact ≥ 3) words and
+    `mod = B^n - c` with `0 < c < B` (precondition of zmCreateCrand / zzRedCrand) -/
+theorem zmKind_crand_shape (w : Nat) (mod : List Nat) (hwf : Wf 8 mod)
+    (h : zmKind w mod = .crand) :
+    ∃ n c, mod.length = n * (w / 8) ∧ 2 ≤ n ∧ 0 < c ∧ c < 2 ^ (8 * (w / 8))
+      ∧ val 8 mod + c = (2 ^ (8 * (w / 8))) ^ n := by
+  unfold zmKind at h
+  simp only [] at h
+  generalize w / 8 = opw at *
+  split_ifs at h with h1 h2
+  obtain ⟨d1, d2, d3, d4⟩ := h2
+  obtain ⟨n, hn⟩ := Nat.dvd_of_mod_eq_zero d1
+  have hsplit : mod = mod.take opw ++ mod.drop opw := (List.take_append_drop opw mod).symm
+  have hlt : (mod.take opw).length = opw := by rw [List.length_take]; omega
+  have hld : (mod.drop opw).length = (n - 1) * opw := by
+    rw [List.length_drop, hn, Nat.sub_mul, Nat.one_mul, Nat.mul_comm]
+  have hv := oval_append (mod.take opw) (mod.drop opw)
+  rw [← hsplit, hlt] at hv
+  have hFF := oval_allFF _ d4
+  rw [hld] at hFF
+  have hlo : val 8 (mod.take opw) < 2 ^ (8 * opw) := by
+    have := oval_lt (mod.take opw) (fun x hx => hwf x (List.mem_of_mem_take hx))
+    rwa [hlt] at this
+  have hpos := oval_pos (mod.take opw) (by simpa using d3)
+  have hn3 : 3 ≤ n := by
+    by_contra hc
+    have : n ≤ 2 := by omega
+    have : opw * n ≤ opw * 2 := Nat.mul_le_mul_left _ this
+    omega
+  refine ⟨n, 2 ^ (8 * opw) - val 8 (mod.take opw), by rw [hn, Nat.mul_comm], by omega, by omega,
+    by omega, ?_⟩
+  have e : (2 ^ (8 * opw)) ^ n = 2 ^ (8 * opw) * 2 ^ (8 * ((n - 1) * opw)) := by
+    rw [← Nat.pow_mul, ← Nat.pow_add]
+    congr 1
+    obtain ⟨k, rfl⟩ : ∃ k, n = k + 1 := ⟨n - 1, by omega⟩
+    simp only [Nat.add_sub_cancel]; ring
+  rw [e, hv]
+  generalize 2 ^ (8 * ((n - 1) * opw)) = P at *
+  generalize val 8 (List.drop opw mod) = D at *
+  have : P = D + 1 := hFF.symm
+  subst this
+  have : 2 ^ (8 * opw) * (D + 1) = 2 ^ (8 * opw) * D + 2 ^ (8 * opw) := by ring
+  omega
+
+/-- Barrett branch ⇒ at least 4 words and an even modulus of more than 2 words -/
+theorem zmKind_barr_len (w : Nat) (mod : List Nat) (h : zmKind w mod = .barr) :
+    4 * (w / 8) ≤ mod.length := by
+  unfold zmKind at h
+  simp only [] at h
+  split_ifs at h with h1 h2 h3 h4
+  exact h4
+
+example : zmKind 64 (List.replicate 8 0x43 ++ List.replicate 24 0xFF) = .crand
+    ∧ zmKind 64 (0x43 :: List.replicate 31 0xFE) = .mont
+    ∧ zmKind 64 (0x42 :: List.replicate 31 0xFE) = .barr
+    ∧ zmKind 64 (0x42 :: List.replicate 23 0xFE) = .plain
+    ∧ zmKind 64 (List.replicate 16 0xFF) = .plain
+    ∧ zmKind 64 (List.replicate 8 0 ++ List.replicate 24 0xFF) = .barr := by decide
+
 end Bee2V.C05
